@@ -1,7 +1,7 @@
 #!/bin/bash
 # Confirms a seeded change in its scratch worktree: (1) with the change the pinned 477 tests pass, (2) the demonstration fails,
-# (3) without the change the demonstration passes.   usage: tools/verify_seeded.sh C07 ["extra cargo features for the demo"]
-ID=$1; FEAT=${2:-tests-cfg}; WT=/tmp/seed-$ID
+# (3) without the change the demonstration passes.   usage: [SEED_PREFIX=/tmp/seed2-] tools/verify_seeded.sh C07 ["extra cargo features for the demo"]
+ID=$1; FEAT=${2:-tests-cfg}; WT=${SEED_PREFIX:-/tmp/seed-}$ID
 cd $WT || exit 2
 git checkout -q -- src sea-query-derive 2>/dev/null; git apply seeded/patch.diff || { echo "$ID patch does not apply"; exit 2; }
 cp seeded/seeded_demo.rs tests/seeded_demo.rs
